@@ -36,7 +36,7 @@ def main():
         env = dict(ENV, VERIF_REPO=repo, VERIF_BUILD=os.path.join(root, "build"), VERIF_EVID=os.path.join(root, "evid"))
         os.makedirs(env["VERIF_EVID"])
         for pid in ids:
-            r = subprocess.run(["./check", pid, "--tier", tier], cwd="/verif", env=env, capture_output=True, text=True)
+            r = subprocess.run(["./check", pid, "--tier", tier], cwd=os.path.dirname(os.path.dirname(os.path.abspath(__file__))), env=env, capture_output=True, text=True)
             keys = re.findall(r"key=(.*)", r.stderr)
             tail = [l for l in r.stderr.strip().splitlines() if l.strip()][-1:] if r.returncode == 2 else []
             out[pid] = {"exit": r.returncode, "keys": keys[:4]}
